@@ -62,6 +62,11 @@ func main() {
 			nn := n
 			out.Do(fmt.Sprintf("groupk %d", nn), func() string { return fmt.Sprintf("k=%d", groupKReal(nn)) })
 		}
+		wn := 300
+		if tier == "thorough" {
+			wn = 4000
+		}
+		wireStream(out, st, rng.Fork(), wn)
 		for _, sc := range impersonationScripts() {
 			r.runScript(sc)
 		}
@@ -235,6 +240,7 @@ type stats struct {
 	IdEnc            map[string]int `json:"id_enc"`
 	ScriptLen        map[string]int `json:"script_len"`
 	DecodeDrops      int            `json:"decode_drops"`
+	WireStream       map[string]int `json:"wire_stream"`
 	Retained         int            `json:"retained_rounds"`
 	RetentionChanged []string       `json:"retention_changed"`
 }
@@ -242,7 +248,7 @@ type stats struct {
 func newStats() *stats {
 	return &stats{GroupSizes: map[string]int{}, Wire: map[string]int{}, Effects: map[string]int{}, Endings: map[string]int{},
 		SigShapes: map[string]int{}, RandShapes: map[string]int{}, Filed: map[string]int{}, DataHash: map[string]int{},
-		IdEnc: map[string]int{}, ScriptLen: map[string]int{}}
+		IdEnc: map[string]int{}, ScriptLen: map[string]int{}, WireStream: map[string]int{}}
 }
 
 func shapeClass(s string) string {
